@@ -89,6 +89,28 @@ json observe(world& w)
                                    })}});
     }
     o["pl"] = pl;
+    // the same rows through the high-level API: tracks(), and snapshot() + is_valid() of every track handle - on rows only
+    // the table API can write (NULLs and value classes create_track() never stores).  Values are not judged here (the
+    // mapping is TrackFields' matter), only: completes or throws a std::exception, writes nothing, answers twice alike.
+    {
+        auto db = w.lib->database();
+        json hl;
+        hl["ids"] = gv("tracks", [&]() -> json { json a = json::array(); for (auto& x : db.tracks()) a.push_back(x.id()); return a; });
+        json tk = json::array();
+        auto oc = vh::guarded("tracks", [&] {
+            for (auto& x : db.tracks())
+            {
+                json e = {{"id", x.id()}};
+                e["snap"] = gv("snapshot", [&]() -> json {
+                    auto sn = sj::to_json(x.snapshot()).dump(-1, ' ', false, json::error_handler_t::replace);
+                    return sj::hex16(sj::fnv(sn.data(), sn.size())) + (x.is_valid() ? "v" : "i");
+                });
+                tk.push_back(std::move(e));
+            }
+        });
+        hl["tk"] = tk;
+        o["hl"] = hl;
+    }
     return o;
 }
 
